@@ -923,6 +923,7 @@ spifconf_parse_line(FILE * fp, spif_charptr_t buff)
               if (!(fp = spifconf_open_file(path))) {
                   libast_print_error("Parsing file %s, line %lu:  Unable to locate %%included config file %s (%s), continuing\n", file_peek_path(),
                               file_peek_line(), path, strerror(errno));
+                  FREE(path);
               } else {
                   file_push(fp, path, NULL, 1, 0);
               }
@@ -988,6 +989,7 @@ spifconf_parse(spif_charptr_t conf_name, const spif_charptr_t dir, const spif_ch
     FILE *fp;
     spif_charptr_t name = NULL, p = (spif_charptr_t) ".";
     spif_char_t buff[CONFIG_BUFF], orig_dir[PATH_MAX];
+    unsigned char base;
 
     REQUIRE_RVAL(conf_name != NULL, 0);
 
@@ -1011,6 +1013,7 @@ spifconf_parse(spif_charptr_t conf_name, const spif_charptr_t dir, const spif_ch
     }
 	/* Line count starts at 1 because spifconf_open_file() parses the first line. */
     file_push(fp, conf_name, NULL, 1, 0);
+    base = fstate_idx;
 
     for (; fstate_idx > 0;) {
         for (; fgets((char *) buff, CONFIG_BUFF, file_peek_fp());) {
@@ -1028,6 +1031,10 @@ spifconf_parse(spif_charptr_t conf_name, const spif_charptr_t dir, const spif_ch
         if (file_peek_preproc()) {
             remove((char *) file_peek_outfile());
             FREE(file_peek_outfile());
+        }
+        if (fstate_idx > base) {
+            /* Frames above ours were pushed by %include, which allocated their path. */
+            FREE(file_peek_path());
         }
         file_pop();
     }
